@@ -269,6 +269,43 @@ pub fn run(tier: Tier) -> i32 {
                 }
             }
         }
+        // the size rules follow the size in effect after reset(Some(..)): a decoder constructed with a size, then
+        // reset(Some(None)) = "no size any more": a marker-terminated stream of another length decodes completely, and
+        // the same stream without its marker is an error; then reset(Some(Some(k))) with k inside the data
+        for (lc, lp, pb) in [(3u32, 0u32, 2u32), (0, 0, 0)] {
+            for (pi, prog) in progs.iter().enumerate().take(12) {
+                let e_plain = enc::encode(lc, lp, pb, u64::MAX, prog);
+                let mut p = prog.clone();
+                p.push(Sym::E);
+                let e_marker = enc::encode(lc, lp, pb, u64::MAX, &p);
+                let nlen = e_plain.expect.len() as u64;
+                let ops = vec![
+                    RawOp::Dec(Hex(enc::encode(lc, lp, pb, u64::MAX, &[Sym::L(0x41), Sym::L(0x42), Sym::L(0x43)]).payload)),
+                    RawOp::ResetSize(None),
+                    RawOp::Dec(Hex(e_marker.payload.clone())),
+                    RawOp::ResetSize(None),
+                    RawOp::Dec(Hex(e_plain.payload.clone())),
+                    RawOp::ResetSize(Some(nlen + 1)),
+                    RawOp::Dec(Hex(e_plain.payload.clone())),
+                ];
+                let case = Case::RawLzma { lc, lp, pb, dict: 1 << 16, size: Some(3), memlimit: None, ops };
+                let o = run_case(&case);
+                n += 1;
+                ctx.eval(1);
+                ctx.nontriv(1);
+                let ok = o.ops.len() == 7
+                    && o.ops[0].v.is_ok()
+                    && o.ops[2].v.is_ok()
+                    && o.ops[2].sink_len == e_marker.expect.len()
+                    && o.ops[2].n == Some(e_marker.payload.len() as u64)
+                    && o.ops[4].v.is_err()
+                    // (a trained stream may yield one more symbol from its flush bytes: success then means exactly n+1 bytes)
+                    && (o.ops[6].v.is_err() || o.ops[6].sink_len as u64 == nlen + 1);
+                if !ok {
+                    ctx.violation(&case, &format!("raw decoder constructed with size 3: [L41 L42 L43] Ok; reset(Some(None)); program #{} + marker => Ok with all {} bytes; reset(Some(None)); the same without marker => Err; reset(Some(Some({}))); the same ({} bytes of data) => Err (or exactly that many bytes)", pi, e_marker.expect.len(), nlen + 1, nlen), &o, None);
+                }
+            }
+        }
         ctx.scope_done("raw-decoder-second-call-without-marker", n, t2, "");
     }
     ctx.finish()
